@@ -77,7 +77,10 @@ typedef struct vf_errlog {
     char msg[VF_ERRLOG_MAX][160];
     int bad_format;		/* message contained a newline / was empty */
 } vf_errlog;
-extern /* errno value the callback leaves behind (never produced by libvna) */
+extern /* called from inside vf_errfn when set (not re-entered): a driver's way of
+   reading an object through its getters while the library reports an error */
+extern void (*vf_errfn_hook)(void);
+/* errno value the callback leaves behind (never produced by libvna) */
 #define VF_ERRFN_ERRNO EXDEV
 void vf_errfn(const char *message, void *arg, int category);
 extern void vf_errlog_reset(vf_errlog *l);
